@@ -210,6 +210,8 @@ def msg_doc(kind, message_id, ro_id='RO', *, story_ref=ABSENT, target=ABSENT, id
         m.append(E('roID', ro_id))
         _ref(m, 'storyID', story_ref)
         for f in fields:
+            if f == 'NOBODY':
+                continue
             if f == 'BODY':
                 b = E('storyBody')
                 for c in (body or ()):
@@ -218,7 +220,7 @@ def msg_doc(kind, message_id, ro_id='RO', *, story_ref=ABSENT, target=ABSENT, id
                 placed = True
             else:
                 m.append(f)
-        if not placed:
+        if not placed and 'NOBODY' not in (fields or ()):
             b = E('storyBody')
             for c in (body or ()):
                 b.append(c)
